@@ -499,6 +499,9 @@ def sysvar_cases(rng):
         cases.append(('data-init', var, '<assign location="dummy" expr="2"/>', '<data id="%s" expr="%s"/>' % (var, xesc(hv))))
         cases.append(('foreach-item', var, '<foreach array="arr" item="%s"><assign location="dummy" expr="3"/></foreach>' % var, ''))
         cases.append(('foreach-index', var, '<foreach array="arr" item="dummy" index="%s"><assign location="dummy" expr="3"/></foreach>' % var, ''))
+        # the same location written with white space around it (attribute values are not normalised by the XML parser for CDATA attributes)
+        ws = rng.choice([' ', '  ', '&#10;', '&#9;', ' &#10; '])
+        cases.append(('assign-whole-with-whitespace', var, '<assign location="%s%s%s" expr="%s"/>' % (ws, var, rng.choice(['', ' ']), xesc(hv)), ''))
         cases.append(('script', var, '<script>%s = %s</script>' % (var, xesc(hv)), ''))
         cases.append(('send-idlocation', var, '<send event="x" idlocation="%s"/>' % var, ''))
     fld = rng.choice(['name', 'type', 'data', 'sendid'])
